@@ -1,22 +1,35 @@
 package PKGNAME
 
 import (
+	"crypto"
 	"crypto/sha256"
 	"crypto/tls"
 	"crypto/x509"
+
+	"github.com/wneessen/go-mail/internal/pkcs7"
 )
 
 // C08: the bytes handed to the signer must be exactly the first body part of
 // the multipart/signed entity as emitted (RFC 1847), for every message shape.
 
-// hxSigned records what the engine-side model of (*SMIME).signMessage received.
+// hxSigned records what the engine-side model of the PKCS#7 layer was asked to sign.
 var hxSigned [][]byte
 
-// hxSignStub replaces (*SMIME).signMessage inside the engine (override table):
-// PKCS#7 / RSA / ECDSA are outside the reach of the solver.
-func hxSignStub(s *SMIME, message []byte) (string, error) {
-	hxSigned = append(hxSigned, append([]byte{}, message...))
-	return "SIGNATURE-BLOB-" + string(rune('0'+len(hxSigned))), nil
+// The PKCS#7 layer is replaced inside the engine (override table): ASN.1, RSA
+// and ECDSA are outside the reach of the solver. (*SMIME).signMessage itself
+// runs for real; the model records the bytes it asks to have digested.
+func hxP7NewSignedData(data []byte) (*pkcs7.SignedData, error) {
+	hxSigned = append(hxSigned, append([]byte{}, data...))
+	return new(pkcs7.SignedData), nil
+}
+
+func hxP7AddSigner(sd *pkcs7.SignedData, cert *x509.Certificate, pkey crypto.PrivateKey, config pkcs7.SignerInfoConfig) error {
+	return nil
+}
+func hxP7AddCertificate(sd *pkcs7.SignedData, cert *x509.Certificate) {}
+func hxP7Detach(sd *pkcs7.SignedData)                                 {}
+func hxP7Finish(sd *pkcs7.SignedData) ([]byte, error) {
+	return []byte("SIGNATURE-BLOB-" + string(rune('0'+len(hxSigned)))), nil
 }
 
 func hxSetupSigning(m *Msg) bool {
